@@ -4,65 +4,153 @@ import (
 	"context"
 	"fmt"
 	"net"
-	"sync"
+	"net/http"
+	"strings"
 
 	"github.com/hprose/hprose-golang/v3/rpc/core"
+	rpchttp "github.com/hprose/hprose-golang/v3/rpc/http"
+	rpcfast "github.com/hprose/hprose-golang/v3/rpc/http/fasthttp"
+	"github.com/hprose/hprose-golang/v3/rpc/mock"
 	"github.com/hprose/hprose-golang/v3/rpc/socket"
+	"github.com/hprose/hprose-golang/v3/rpc/udp"
+	"github.com/hprose/hprose-golang/v3/rpc/websocket"
+	"github.com/valyala/fasthttp"
 )
 
 // Fixture wires a real core.Service and real core.Clients together through the
 // simulated network by one transport.
+//
+// Kinds: socket (tcp framing; the tcp/unix/tls difference is confined to the
+// address selection in dial(), which the seam replaces), websocket (net/http
+// server), websocket-fast (fasthttp server), udp, http (net/http client and
+// server), fasthttp (fasthttp client and server), mock.
 type Fixture struct {
 	Kind     string
 	R        *Run
 	Net      *Net
+	UDP      *UDPNet
 	Service  *core.Service
 	URL      string
 	Addr     string
 	ctx      context.Context
 	cancel   context.CancelFunc
 	listener *Listener
+	udpSrv   *UDPServer
 	clients  []*core.Client
 	pending  []func() (int, int)
 	stops    []func()
 }
 
-var registerOnce sync.Once
+// AllKinds lists the transports the fixture can wire up.
+var AllKinds = []string{"socket", "websocket", "websocket-fast", "udp", "http", "fasthttp", "mock"}
 
-func registerAll() {
-	registerOnce.Do(func() {
+// MuxKinds multiplex many calls over one connection with request indices.
+var MuxKinds = []string{"socket", "websocket", "websocket-fast", "udp"}
+
+// RegisterKind registers exactly the transport and handler a run needs. It must
+// be called before core.NewService / core.NewClient (they instantiate whatever
+// is registered). One run per process: nothing else is ever registered.
+func RegisterKind(kind string) {
+	switch kind {
+	case "socket":
 		socket.RegisterTransport()
 		socket.RegisterHandler()
-		registerMore()
-	})
+	case "websocket", "websocket-fast":
+		websocket.RegisterTransport()
+		websocket.RegisterHandler()
+	case "udp":
+		udp.RegisterTransport()
+		udp.RegisterHandler()
+	case "http":
+		rpchttp.RegisterTransport()
+		rpchttp.RegisterHandler()
+	case "fasthttp":
+		rpcfast.RegisterTransport()
+		rpchttp.RegisterHandler()
+	case "mock":
+		mock.RegisterTransport()
+		mock.RegisterHandler()
+	default:
+		panic("RegisterKind: " + kind)
+	}
 }
 
-// AllKinds lists the transports the fixture can wire up.
-var AllKinds = []string{"socket"}
+// HasConns reports whether the transport runs over simulated stream connections.
+func (f *Fixture) HasConns() bool { return f.Kind != "mock" && f.Kind != "udp" }
 
-// HasConns reports whether the transport runs over simulated connections.
-func (f *Fixture) HasConns() bool { return f.Kind != "mock" }
-
-// StreamKinds are the transports that multiplex calls on one connection.
-var StreamKinds = []string{"socket", "websocket", "udp"}
+// IsMux reports whether the transport multiplexes calls by request index.
+func (f *Fixture) IsMux() bool {
+	for _, k := range MuxKinds {
+		if k == f.Kind {
+			return true
+		}
+	}
+	return false
+}
 
 // NewFixture starts the server side of the given transport for service.
-func NewFixture(r *Run, n *Net, kind string, service *core.Service) *Fixture {
-	registerAll()
-	f := &Fixture{Kind: kind, R: r, Net: n, Service: service}
+// RegisterKind(kind) must have been called before the service was created.
+func NewFixture(r *Run, kind string, service *core.Service) *Fixture {
+	f := &Fixture{Kind: kind, R: r, Service: service}
+	f.Net = NewNet(r.Sim)
+	f.UDP = NewUDPNet(r.Sim)
 	f.ctx, f.cancel = context.WithCancel(context.Background())
+	n := f.Net
 	switch kind {
 	case "socket":
 		f.Addr = "10.0.0.1:8412"
 		f.URL = "tcp://" + f.Addr + "/"
 		f.listener = n.Listen(f.Addr)
-		h := &socket.Handler{Service: service}
+		h := service.GetHandler("socket")
 		r.Sim.Task("srv", func() { h.BindContext(f.ctx, f.listener) })
 		socket.VerifDial = func(ctx context.Context) (net.Conn, error) { return n.Dial(ctx, f.Addr) }
-	default:
-		if !f.startMore(kind) {
-			panic("fixture: unknown transport kind " + kind)
+	case "websocket", "http":
+		f.Addr = "10.0.0.1:8080"
+		scheme := "http"
+		name := "http"
+		if kind == "websocket" {
+			scheme, name = "ws", "websocket"
+			websocket.VerifNetDial = func(ctx context.Context, network, addr string) (net.Conn, error) { return n.Dial(ctx, f.Addr) }
 		}
+		f.URL = scheme + "://" + f.Addr + "/"
+		f.listener = n.Listen(f.Addr)
+		srv := &http.Server{}
+		service.GetHandler(name).BindContext(f.ctx, srv)
+		r.Sim.Task("srv", func() { srv.Serve(f.listener) })
+		f.stops = append(f.stops, func() { srv.Close() })
+	case "websocket-fast", "fasthttp":
+		f.Addr = "10.0.0.1:8080"
+		scheme := "http"
+		name := "http"
+		if kind == "websocket-fast" {
+			scheme, name = "ws", "websocket"
+			websocket.VerifNetDial = func(ctx context.Context, network, addr string) (net.Conn, error) { return n.Dial(ctx, f.Addr) }
+		}
+		f.URL = scheme + "://" + f.Addr + "/"
+		f.listener = n.Listen(f.Addr)
+		srv := &fasthttp.Server{}
+		service.GetHandler(name).BindContext(f.ctx, srv)
+		r.Sim.Task("srv", func() { srv.Serve(f.listener) })
+	case "udp":
+		f.Addr = "10.0.0.1:8412"
+		f.URL = "udp://" + f.Addr + "/"
+		f.udpSrv = f.UDP.Listen(8412)
+		h := service.GetHandler("udp")
+		r.Sim.Task("srv", func() { h.BindContext(f.ctx, f.udpSrv) })
+		udp.VerifDial = func(ctx context.Context) (net.Conn, error) {
+			c, err := f.UDP.Dial(f.udpSrv)
+			if err != nil {
+				return nil, err
+			}
+			return c, nil
+		}
+	case "mock":
+		f.Addr = "simtest"
+		f.URL = "mock://" + f.Addr
+		service.GetHandler("mock").BindContext(f.ctx, mock.Server{Address: f.Addr})
+		f.stops = append(f.stops, func() { mock.Server{Address: f.Addr}.Close() })
+	default:
+		panic("fixture: unknown transport kind " + kind)
 	}
 	return f
 }
@@ -71,24 +159,65 @@ func NewFixture(r *Run, n *Net, kind string, service *core.Service) *Fixture {
 func (f *Fixture) NewClient() *core.Client {
 	c := core.NewClient(f.URL)
 	f.clients = append(f.clients, c)
+	n := f.Net
 	switch f.Kind {
 	case "socket":
-		t := c.GetTransport("socket").(*socket.Transport)
-		f.pending = append(f.pending, t.VerifPending)
-	default:
-		f.clientMore(c)
+		f.pending = append(f.pending, c.GetTransport("socket").(*socket.Transport).VerifPending)
+	case "websocket", "websocket-fast":
+		f.pending = append(f.pending, c.GetTransport("websocket").(*websocket.Transport).VerifPending)
+	case "udp":
+		f.pending = append(f.pending, c.GetTransport("udp").(*udp.Transport).VerifPending)
+	case "http":
+		t := c.GetTransport("http").(*rpchttp.Transport)
+		ht := t.HTTPClient.Transport.(*http.Transport)
+		ht.DialContext = func(ctx context.Context, network, addr string) (net.Conn, error) { return n.Dial(ctx, f.Addr) }
+		t.HTTPClient.Jar = nil
+		f.stops = append(f.stops, ht.CloseIdleConnections)
+	case "fasthttp":
+		t := c.GetTransport("fasthttp").(*rpcfast.Transport)
+		t.FastHTTPClient.Dial = func(addr string) (net.Conn, error) { return n.Dial(context.Background(), f.Addr) }
+		f.stops = append(f.stops, t.FastHTTPClient.CloseIdleConnections)
 	}
 	return c
+}
+
+// SetPool installs a worker pool on the server-side handler (mux transports).
+func (f *Fixture) SetPool(p core.WorkerPool) bool {
+	switch h := f.Service.GetHandler(strings.TrimSuffix(f.Kind, "-fast")).(type) {
+	case *socket.Handler:
+		h.Pool = p
+	case *websocket.Handler:
+		h.Pool = p
+	case *udp.Handler:
+		h.Pool = p
+	default:
+		return false
+	}
+	return true
 }
 
 // Pending sums pooled connections and pending entries over all clients.
 func (f *Fixture) Pending() (conns, pending int) {
 	for _, p := range f.pending {
 		c, n := p()
+		if c < 0 {
+			return -1, -1 // a task holds the transport's lock (e.g. while dialling)
+		}
 		conns += c
 		pending += n
 	}
 	return
+}
+
+// InFlight reports whether any message is still travelling.
+func (f *Fixture) InFlight() bool { return f.Net.InFlight() || f.UDP.InFlight() }
+
+// Heal ends every planned or active network fault; black-holed stream
+// connections are reset, as a kernel eventually would.
+func (f *Fixture) Heal() {
+	f.Net.Disarm()
+	f.Net.HealSilent()
+	f.UDP.Heal()
 }
 
 // Shutdown stops the server side (listener, serving contexts) and aborts every
@@ -105,6 +234,7 @@ func (f *Fixture) Shutdown() {
 		s()
 	}
 	f.Net.CloseAll()
+	f.UDP.CloseAll()
 }
 
 func (f *Fixture) String() string { return fmt.Sprintf("fixture(%s)", f.Kind) }
